@@ -104,6 +104,13 @@ def histories(draw, kinds_weighted, max_ops=20, n_variants=(1, 3), gen_kw=None, 
             if i:
                 for f in v['files']:
                     f['name'] = f'{f["name"]}.nm{i}'
+        # one more configuration for MultiChains in name mode: the base tree under ANOTHER ROOT file (same content, other
+        # name) - its members then overlap in all the prerequisite configs, which are the very same files
+        vr = copy.deepcopy(base)
+        vr['files'][vr['root']]['name'] = vr['files'][vr['root']]['name'] + '.nmr'
+        vr['variant_labels'] = ['root_copy']
+        vr['cfgdir_of'] = 0
+        variants = variants + [vr]
     else:
         variants = draw(variants_of(base, nv - 1, kinds=variant_kinds)) if nv > 1 else [base]
     ops = [{'op': 'chain', 'variant': 0, 'pm': not nm}]
@@ -111,10 +118,11 @@ def histories(draw, kinds_weighted, max_ops=20, n_variants=(1, 3), gen_kw=None, 
     n = draw(st.integers(3, max_ops))
 
     def adapt(op):
-        if nm and op['op'] == 'multichain':
-            op = {'op': 'chain', 'variant': 0, 'registry': None}
-        if op['op'] == 'chain':
+        if op['op'] in ('chain', 'multichain'):
             op['pm'] = not nm
+        if nm and op['op'] == 'multichain':
+            # members from different root files (the same file twice under made-up names is not a name-mode use)
+            op['variants'] = [0, len(variants) - 1] if len(op['variants']) % 2 else [len(variants) - 1, 0]
         return op
 
     renamed = [(v['variant_of'], i) for i, v in enumerate(variants)
